@@ -231,6 +231,34 @@ def run(ck, w):
     for e in cont:
         ed |= rules.bool_switch_edges(av, e, False)
     hit = [e for e in errs if ed and av.must_pass_edges(ed, e.bb)]
+    if not hit:
+        # adapter idiom: keys().filter(|h| !present.contains(h)).for_each(|h| monitor.error(BlockMissing{..}))
+        fam_av = lib.family("archive::Archive::validate") + [b_ for b_ in lib.bodies.values() if b_.root == "archive::Archive::validate" and b_ not in lib.family("archive::Archive::validate")]
+        for fb in fam_av:
+            for fe in fb.events:
+                if fe.bb not in fb.live or not re.search(r"Iterator>?::for_each$", fe.name) or len(fe.args) < 2:
+                    continue
+                recv_calls = flow.origin_calls(flow.origins_x(lib, fb, fe.args[0]))
+                flt = [x for x in fb.events if x.bb in fb.live and re.search(r"Iterator>?::filter$", x.name) and x.name in recv_calls]
+                if not flt:
+                    continue
+                neg_contains = False
+                for oo in flow.origins(fb, flt[0].args[1]):
+                    if oo[0] == "agg" and oo[1] in lib.bodies:
+                        kb = lib.bodies[oo[1]]
+                        ce = [x for x in kb.events if x.bb in kb.live and x.name.endswith("HashSet::<T, S, A>::contains")]
+                        nots = [st_ for bb_, j_, st_ in kb.all_assigns() if st_["rv"]["rk"] == "unop" and st_["rv"]["op"] == "Not"]
+                        if ce and nots:
+                            neg_contains = True
+                reports = False
+                for oo in flow.origins(fb, fe.args[1]):
+                    if oo[0] == "agg" and oo[1] in lib.bodies:
+                        eb = lib.bodies[oo[1]]
+                        if [x for x in eb.events if x.bb in eb.live and (x.callee or "").endswith("Monitor::error")] and \
+                                rules.agg_sites(eb, "errors::Error", "BlockMissing"):
+                            reports = True
+                if neg_contains and reports:
+                    hit = [fe]
     if hit:
         ck.ok(o, sites=[e.site() for e in hit])
     else:
@@ -246,6 +274,9 @@ def run(ck, w):
         if any(av.must_pass_edges(ed, e.bb) for e in errs if ed):
             short_ok = True
     gets = [e for e in av.events if e.bb in av.live and e.name.endswith("HashMap::<K, V, S, A>::get")]
+    # the looked-up length may be copied out of the Option<&usize> first
+    gets += [e for e in av.events if e.bb in av.live and re.search(r"Option::<&T>::(copied|cloned)$|Option::<T>::(copied|cloned)$", e.name) and e.args and
+             any(c.endswith("HashMap::<K, V, S, A>::get") for c in flow.origin_calls(flow.origins_x(lib, av, e.args[0])))]
     none_ok = False
     for e in gets:
         for (sb, tested, arms, other) in flow.discriminant_switches(av, flow.result_carriers(av, e.dest["l"])):
@@ -256,6 +287,27 @@ def run(ck, w):
         ck.ok(o)
     else:
         ck.fail(o, av.name, "length / missing-block report removed", "range comparison reported=%s, missing block reported=%s" % (short_ok, none_ok))
+    o = ck.ob("C09.3l", "blocks (full mode): a referenced block for which no validated length exists is reported unconditionally "
+                        "(no further probe decides whether it is 'really' missing)")
+    none_edges_ = []
+    for e in gets:
+        for (sb, tested, arms, other) in flow.discriminant_switches(av, flow.result_carriers(av, e.dest["l"])):
+            none_edges_.append((sb, arms[0] if 0 in arms else other))
+    loop_heads = [e.bb for e in av.events if e.bb in av.live and re.search(r"Iterator>?::next$", e.name)]
+    missing_errs = {e.bb for e in errs}
+    if not none_edges_ or not missing_errs:
+        ck.fail(o, av.name, "anchor-missing", "no lookup of the validated length or no Monitor::error in validate")
+    else:
+        skip = False
+        for (sb, t_) in none_edges_:
+            reach = av.reachable(t_, removed_nodes=missing_errs)
+            if any(h in reach for h in loop_heads) or any(r in reach for r in av.return_blocks()):
+                skip = True
+        if skip:
+            ck.fail(o, av.name, "missing block reported only conditionally", "after the length lookup returned None the next block can be reached "
+                    "without Monitor::error")
+        else:
+            ck.ok(o)
     o = ck.ob("C09.3g", "validate passes the referenced lengths from validate_bands to the block checks")
     vbs = events_of(lib, av, "validate::validate_bands")
     if vbs and err.classify(av, vbs[0]).fate == "propagated":
